@@ -203,7 +203,9 @@ impl WorkerPool {
         let timeout = Duration::from_millis(config.timeout_ms);
 
         loop {
-            if shutdown_flag.load(Ordering::Relaxed) {
+            // Packets that were accepted (reported as queued) before the shutdown request
+            // are still analysed: a worker only stops once its queue is empty.
+            if shutdown_flag.load(Ordering::Relaxed) && rx.is_empty() {
                 tracing::debug!("TCP worker {worker_id} received shutdown signal");
                 break;
             }
